@@ -171,6 +171,87 @@ func (f factSet) list() []string {
 //   gen(node)            facts established by executing a node
 //   edge(block, i)       facts established by leaving block through successor i
 // It returns, for each node of interest (selected by want), the facts that hold just before it.
+func mustFactsAtExits(g *cfg.CFG, gen func(ast.Node) []string, edge func(b *cfg.Block, i int) []string) []exitFacts {
+	n := len(g.Blocks)
+	in := make([]factSet, n)   // nil = top (unvisited)
+	preds := make([][]struct{ b *cfg.Block; i int }, n)
+	for _, b := range g.Blocks {
+		for i, s := range b.Succs {
+			preds[s.Index] = append(preds[s.Index], struct{ b *cfg.Block; i int }{b, i})
+		}
+	}
+	outOf := func(b *cfg.Block) factSet {
+		if in[b.Index] == nil {
+			return nil
+		}
+		o := in[b.Index].clone()
+		for _, nd := range b.Nodes {
+			for _, f := range gen(nd) {
+				o[f] = true
+			}
+		}
+		return o
+	}
+	in[0] = factSet{}
+	changed := true
+	for iter := 0; changed && iter < 4*n+8; iter++ {
+		changed = false
+		for _, b := range g.Blocks {
+			if b.Index == 0 {
+				continue
+			}
+			var acc factSet
+			for _, p := range preds[b.Index] {
+				o := outOf(p.b)
+				if o == nil {
+					continue
+				}
+				if edge != nil {
+					for _, f := range edge(p.b, p.i) {
+						o[f] = true
+					}
+				}
+				if acc == nil {
+					acc = o
+				} else {
+					acc = intersect(acc, o)
+				}
+			}
+			if acc == nil {
+				continue
+			}
+			if in[b.Index] == nil || len(acc) != len(in[b.Index]) {
+				in[b.Index] = acc
+				changed = true
+			}
+		}
+	}
+	var out []exitFacts
+	for _, b := range g.Blocks {
+		if in[b.Index] == nil || len(b.Succs) != 0 {
+			continue
+		}
+		cur := in[b.Index].clone()
+		var last ast.Node
+		for _, nd := range b.Nodes {
+			for _, f := range gen(nd) {
+				cur[f] = true
+			}
+			last = nd
+		}
+		out = append(out, exitFacts{Block: b, Last: last, Facts: cur})
+	}
+	return out
+}
+
+// exitFacts: the must-facts at the end of a block without successors (a return, or the end of the
+// function body).
+type exitFacts struct {
+	Block *cfg.Block
+	Last  ast.Node
+	Facts factSet
+}
+
 func mustFacts(g *cfg.CFG, gen func(ast.Node) []string, edge func(b *cfg.Block, i int) []string, want func(ast.Node) bool) map[ast.Node]factSet {
 	n := len(g.Blocks)
 	in := make([]factSet, n)   // nil = top (unvisited)
